@@ -149,7 +149,7 @@ func genRF(rng *core.Rng, i int) RFCase {
 func (ReadFileEngine) Gen(prop, tier string, seed uint64, yield func(c any) bool) {
 	n := 12000
 	if tier == "thorough" {
-		n = 400000
+		n = 3000000
 	}
 	rng := core.NewRng(core.SubSeed(seed, "readfile", tier))
 	for i := 0; i < n; i++ {
